@@ -277,6 +277,26 @@ func runC11(c *eng.Ctx) {
 	c.Rule("SYMMETRY", "aggregation.seriesAggregator.GetAggregator{target range = image of the source range}", func() { aggregatorTargetRange(c) })
 
 	c.Rule("GUARD", "tsdb/tblstore/metricsdata.fieldReader.GetFieldData{only the requested field}", func() { fieldDataOnlyForHeldField(c) })
+	c.Rule("PROV", "tsdb/memdb.memoryDatabase.filter{memory data is delivered under the QUERY's field}", func() {
+		f := c.Fn("tsdb/memdb.memoryDatabase.filter")
+		sts := c.Some(f, eng.StoreField("tsdb/memdb.fieldEntry.field"), "fieldEntry.field = …")
+		for i, st := range sts {
+			v := st.Instr.(*ssa.Store).Val
+			fromQuery := eng.DependsOn(v, func(x ssa.Value) bool {
+				cl, ok := x.(*ssa.Call)
+				if !ok || cl.Common().StaticCallee() == nil || baseName(cl.Common().StaticCallee().Name()) != "GetFromName" {
+					return false
+				}
+				return eng.DependsOnField(eng.CallRecv(cl), "flow.StorageExecuteContext.Fields")
+			})
+			c.Check(fromQuery, fmt.Sprintf("entry-field-is-the-query-field[%d]", i), st.Instr, f,
+				"the field meta handed to the loader comes from the QUERY's field list (looked up by name): its Index is the field's position among the queried fields — the store's own meta carries the position of the write buffer, a different numbering, and memory data would land in another field's aggregator",
+				"stores "+p.Desc(v))
+		}
+	})
+
+	c.Rule("PASS", "aggregation.DownSampling{the sequential getter is asked for every source slot}", func() { sequentialCursorRules(c) })
+
 	c.Rule("ANCHOR", mfT+".FlushSeries{startAt}", func() { flusherAnchors(c) })
 	c.Rule("LAYOUT", "tsdb/tblstore/metricsdata{block footer}", func() { blockFooter(c) })
 	c.Rule("EXHAUSTIVE", "series/field{type tables}", func() { fieldTypeTables(c) })
@@ -612,4 +632,55 @@ func aggregatorTargetRange(c *eng.Ctx) {
 		}
 	}
 	c.Check(emit, "emitter-formula", nil, ds2, "aggregation.DownSampling maps a source slot with (baseSlot + slot) / ratio", "")
+}
+
+// sequentialCursorRules: encoding.TSDDecoder is a forward-only cursor over a bit stream: HasValueWithSlot(s) answers and
+// advances only for the slot the cursor stands on, and a set has-value bit is followed by the value's bits, which only
+// Value() consumes.  Two necessary conditions for every reader of such a stream:
+//  (1) aggregation.DownSampling asks its getter for EVERY source slot from source.Start on, before any range test can
+//      skip the slot (otherwise the cursor never moves past the slots before the query start and the rest of the block
+//      reads as empty);
+//  (2) wherever HasValueWithSlot / HasValue answered true, Value() is called before the next has-value question
+//      (otherwise the value's bits are read as the next slots' flags).
+func sequentialCursorRules(c *eng.Ctx) {
+	p := c.P
+	ds := c.Fn("aggregation.DownSampling")
+	g := c.One(ds, invokeOn("", "GetValue"), "getter.GetValue(slot)")
+	everyIterationPasses(c, ds, g, "getter-asked-for-every-slot",
+		"DownSampling calls getter.GetValue for every source slot of the block, in order, before the query-range tests: the TSD decoder behind the getter is a forward-only cursor")
+	// and the loop starts at the block's first slot
+	n := 0
+	for _, fk := range []string{"aggregation.DownSamplingMultiSeriesInto", "pkg/encoding.TSDDecoder.GetValue"} {
+		f := c.Fn(fk)
+		isHas := func(p *eng.Prog, in ssa.Instruction) bool {
+			cl, ok := in.(*ssa.Call)
+			if !ok || cl.Common().StaticCallee() == nil {
+				return false
+			}
+			k := p.FuncKey(cl.Common().StaticCallee())
+			return k == "pkg/encoding.TSDDecoder.HasValueWithSlot" || k == "pkg/encoding.TSDDecoder.HasValue"
+		}
+		has := p.SitesDirect(f, isHas)
+		vals := p.SitesDirect(f, eng.CallTo("pkg/encoding.TSDDecoder.Value"))
+		for i, h := range has {
+			n++
+			te, _ := eng.BoolCheckEdges(f, h.Instr.(ssa.Value))
+			bad := false
+			for _, e := range te {
+				first := e.B.Succs[e.Succ].Instrs[0]
+				if instrIn(first, vals) {
+					continue
+				}
+				if _, again := eng.PathExists(eng.PathQuery{Fn: f, After: first,
+					Target:  func(in ssa.Instruction) bool { return isHas(p, in) },
+					Blocked: func(in ssa.Instruction) bool { return instrIn(in, vals) }}); again || isHas(p, first) {
+					bad = true
+				}
+			}
+			c.Check(len(te) > 0 && !bad, fmt.Sprintf("%s:value-consumed-after-has-value[%d]", fk, i), h.Instr, f,
+				"after a has-value answer of true the value's bits are consumed with Value() before the cursor is asked about another slot",
+				"a path from the true edge reaches the next has-value question without Value()")
+		}
+	}
+	c.Check(n >= 2, "cursor-readers-found", nil, nil, "the readers of the TSD cursor were examined", fmt.Sprintf("%d has-value sites", n))
 }
